@@ -163,6 +163,17 @@ func genPipeShape() error {
 	if err != nil {
 		return err
 	}
+	mp := findFunc(mf, "mux", "_pipe")
+	if mp == nil {
+		return fail("mux._pipe not found")
+	}
+	mps := src(fsetM, mp.Body)
+	boolv("muxInstallsWithCAS", strings.Contains(mps, "if !m.muxwires[i].wire.CompareAndSwap(m.init, w) {") && !strings.Contains(mps, "wire.Store(w)"))
+	mc := findFunc(mf, "mux", "Close")
+	if mc == nil {
+		return fail("mux.Close not found")
+	}
+	boolv("muxCloseSwapsDead", strings.Contains(src(fsetM, mc.Body), "wire.Swap(m.dead)"))
 	ib := findFunc(mf, "", "isBroken")
 	if ib == nil {
 		return fail("isBroken not found")
